@@ -12,6 +12,13 @@ TRUSTED = ['Model/Filters.lean written stage by stage like PyKdebugParser.kevent
            'and to the SOURCE TEXT by translation (tools/gen_pyir_fl.py -> Gen/PyIRFl, source_is_expected_ir, '
            'kevents_ir_eq_model, os_log_events_ir_eq_model, is_eventid_allowed_ir_eq_model); trusted for that: the '
            'translator and the interpreter Model/PyIRFl (section filters-ir tests them against CPython)',
+           'the command-line glue in front of the filters is tied to the SOURCE TEXT as well: tools/gen_pyir_cli.py translates '
+           'print_with_count, BASED_INT, the option declarations and callbacks of the seven commands of __main__.py, '
+           'PyKdebugParser.__init__ and the four formatted_* maps into the IR of Model/PyIRCli on every run (cli_source_is_expected_ir, '
+           'kevents_command_ir_eq_model / _eq_hand_model, table_commands_ir_eq_model, init_defaults_ir_eq_model, '
+           'formatted_kevents_ir_eq_model, based_int_ir_eq_model); trusted for that: that translator and interpreter (sections cli-glue, '
+           'cli-decls, cli-init, cli-formatted, cli-pwc-raise test them against click / CPython) and click\'s command-line parsing itself '
+           '(the interpreter starts from the converted option values click hands to the callback)',
            'Python filter()/in/==/truthiness/and/or on ints, tuples, lists, None and str as the interpreter of Model/PyIRFl '
            'evaluates them; the stream KdBufParser(...).parse(kdebug) is the given item list (C02/C03)']
 ASSUMPTIONS = ['the filter attributes of the parser object are not changed while a listing is being consumed '
@@ -551,6 +558,8 @@ def correspondence(rep, rng, tier):
     run_section(rep, 'cli-kevents', gen_cli_cases(rng, tier), line_fn=cli_line, impl_fn=cli_impl, oracle_fn=cli_oracle,
                 nontrivial_fn=lambda c, g: g.startswith('ok ') and 0 < len(g[3:].split()) < len(c['items']),
                 kind_fn=lambda c, g: 'show_tid' if c['show_tid'] else 'no_tid', rule=RULES['cli-kevents'])
+    from .. import cliir
+    cliir.section(rep, rng, tier, 'C12')             # the glue of __main__.py / __init__ / formatted_*, translated: all seven commands
 
 
 def replay(path):
@@ -560,6 +569,9 @@ def replay(path):
         print(json.dumps(r, indent=1)[:4000])
         return 1
     rp = r['replay']
+    if rp.get('section') in ('cli-glue', 'cli-pwc-raise', 'cli-decls', 'cli-init', 'cli-formatted'):
+        from .. import cliir
+        return cliir.replay(rp, 'C12', path)
     if rp.get('section') == 'schedules':
         case = {'kind': 'v2', 'cfg': rp['cfg'], 'items': rp['items']}
         outs, errs, _ = run_schedule(rp['items'], rp['cfg'], rp['requests'], rp['order'])
@@ -630,10 +642,21 @@ LEVEL_TEXT = ('Lean theorems over the stage-by-stage model of kevents / os_log_e
               'stubbed mixed streams, and to the source text by translation: source_is_expected_ir (the IR translated from '
               'pykdebugparser.py on every run is the expected one), kevents_ir_eq_model / os_log_events_ir_eq_model / '
               'is_eventid_allowed_ir_eq_model (the translated methods, interpreted, ARE the model for every configuration, '
-              'class-list argument and stream), kevents_ir_eq_filter.')
+              'class-list argument and stream), kevents_ir_eq_filter.'
+              ' The command-line glue is translated too (tools/gen_pyir_cli.py -> Gen/PyIRCli; IR + interpreter Model/PyIRCli): '
+              'cli_source_is_expected_ir (print_with_count, BASED_INT, the seven commands with their option declarations, __init__, the '
+              'four formatted_* maps), kevents_command_ir_eq_model (the interpreted kevents callback hands formatted_kevents a fresh parser '
+              'whose attributes read as configOf / showOf of the options in force, declared defaults included, and prints through '
+              'print_with_count), kevents_command_ir_eq_hand_model / kevents_command_prints_selected (= print_with_count of '
+              'Format.formattedKevents under configOf: every option reaches exactly the attribute the model reads), '
+              'table_commands_ir_eq_model, init_defaults_ir_eq_model, formatted_kevents_ir_eq_model, based_int_ir_eq_model.')
 LEVEL_NOTE = ('Trusted: Lean kernel, the translator tools/gen_pyir_fl.py and the interpreter Model/PyIRFl (Python filter() / '
               'in / == / truthiness semantics; tested against CPython by the section filters-ir), the correspondence '
               'harness. The container parser behind the listings stays hand-modelled (its stream is the given item list). '
-              'Assumes the filter attributes stay fixed while the lazy listing is consumed.')
+              'Assumes the filter attributes stay fixed while the lazy listing is consumed. Glue: trusted are tools/gen_pyir_cli.py, the '
+              'interpreter Model/PyIRCli and click\'s own parsing / conversion of the command line (the interpreter starts from the '
+              'converted values; int(text, 0) is modelled for ASCII texts without underscores); the meaning of the formatted_* / '
+              'listing methods is a parameter of the glue theorems (instantiated with Format.formattedKevents here). Section cli-glue: '
+              'real tool vs library API under the translated glue, oracle = API under the documented glue.')
 TECHNIQUE = ('Lean 4 proof (filter-chain = declarative List.filter) + translation validation of kevents / os_log_events / '
              '_is_eventid_allowed + differential correspondence')
